@@ -114,6 +114,10 @@ type controller struct {
 
 	// The controller's sources, by watched GVK.
 	sources map[WatchID]*StoppableSource
+
+	// Set once the controller has been stopped. A stopped controller must not
+	// start new watches.
+	stopped bool
 }
 
 // A WatchGarbageCollector periodically garbage collects watches.
@@ -276,6 +280,7 @@ func (e *ControllerEngine) Stop(ctx context.Context, name string) error {
 
 	// Stop and delete the controller.
 	c.cancel()
+	c.stopped = true
 	delete(e.controllers, name)
 
 	e.log.Debug("Stopped controller", "controller", name)
@@ -396,6 +401,12 @@ func (e *ControllerEngine) StartWatches(name string, ws ...Watch) error {
 	// read lock, so we compute everything again.
 	c.mx.Lock()
 	defer c.mx.Unlock()
+
+	// The controller may have been stopped since we looked it up. Don't
+	// register event handlers that nothing would ever remove.
+	if c.stopped {
+		return errors.Errorf("controller %q is not running", name)
+	}
 
 	// Another Goroutine may have started informers since we took our snapshot,
 	// so take it again now that we hold the write lock. Otherwise two concurrent
